@@ -96,8 +96,4 @@ package keeper
 //@ func Keeper.IterateRandomRequestQueue(ctx, op)
 //@   inline
 //@   invariant #1 pos:    0 <= it_idx && it_idx <= it_n
-//@   invariant #1 frame:  rqueue == old(rqueue)
-//@   invariant #1 count:  forall h:Int :: ite(has(pendingRequests, HKEY(h)), len(get(pendingRequests, HKEY(h)).Requests), 0) == CNT(it_seq, it_idx, h)
-//@   invariant #1 listed: forall j:Int :: 0 <= j && j < it_idx ==> has(pendingRequests, HKEY(it_seq[j].k0))
-//@                           && get(pendingRequests, HKEY(it_seq[j].k0)).Requests[CNT(it_seq, j, it_seq[j].k0)] == get(rqueue, it_seq[j].k0, it_seq[j].k1)
 //@ end
